@@ -418,38 +418,46 @@ func RaceBody(reps int) {
 	vclock.AutoTick = time.Microsecond
 	for _, sc := range scenarios(true) {
 		for rep := 0; rep < reps; rep++ {
-			vrand.Free(int64(rep))
-			r := &run{}
-			r.w = cworld.New(optsFor(sc))
-			r.pristine = cworld.CloneConfig(r.w.Config)
-			for _, op := range sc.Prelude {
-				r.do(0, op)
-			}
-			var wg sync.WaitGroup
-			start := make(chan struct{})
-			for i, ops := range sc.Threads {
-				wg.Add(1)
-				go func(i int, ops []string) {
-					defer wg.Done()
-					<-start
-					for _, op := range ops {
-						r.do(i+1, op)
-					}
-				}(i, ops)
-			}
-			close(start)
-			engine.WaitOrBlocked(&wg, sc.Name, runs)
-			// the invariants are judged on the free-running executions too (a sample, not an enumeration)
-			for _, v := range r.judge(sc) {
-				if !strings.HasPrefix(v[0], "malformed-request") {
-					fmt.Printf("RACE-INVARIANT %s:%s\t%s\n", v[0], sc.Name, strings.ReplaceAll(v[1], "\n", " "))
+			// the whole repetition (prelude, threads, final Destroy) runs beside a watchdog: a deadlock anywhere in
+			// it is reported instead of hanging the pass
+			var whole sync.WaitGroup
+			whole.Add(1)
+			go func() {
+				defer whole.Done()
+				vrand.Free(int64(rep))
+				r := &run{}
+				r.w = cworld.New(optsFor(sc))
+				r.pristine = cworld.CloneConfig(r.w.Config)
+				for _, op := range sc.Prelude {
+					r.do(0, op)
 				}
-			}
-			// stop the auto-renewal goroutines of this repetition
-			func() {
-				defer func() { recover() }()
-				r.w.Client.Destroy()
+				var wg sync.WaitGroup
+				start := make(chan struct{})
+				for i, ops := range sc.Threads {
+					wg.Add(1)
+					go func(i int, ops []string) {
+						defer wg.Done()
+						<-start
+						for _, op := range ops {
+							r.do(i+1, op)
+						}
+					}(i, ops)
+				}
+				close(start)
+				wg.Wait()
+				// the invariants are judged on the free-running executions too (a sample, not an enumeration)
+				for _, v := range r.judge(sc) {
+					if !strings.HasPrefix(v[0], "malformed-request") {
+						fmt.Printf("RACE-INVARIANT %s:%s\t%s\n", v[0], sc.Name, strings.ReplaceAll(v[1], "\n", " "))
+					}
+				}
+				// stop the auto-renewal goroutines of this repetition
+				func() {
+					defer func() { recover() }()
+					r.w.Client.Destroy()
+				}()
 			}()
+			engine.WaitOrBlocked(&whole, sc.Name, runs)
 			runs++
 		}
 	}
